@@ -470,6 +470,16 @@ Definition construct (P : params) (L : layout) (nfeat : nat) (inds : list indiv)
                 else None;
      d_cov := if has_cov L then all_some (map i_cov inds) else None |}.
 
+(** the dataset seen as one block per individual: (ID, (ages, (values, (mask, (n_visits, n_observations per feature))))) *)
+Definition d_blocks (d : dataset) : list (ident * (list Q * (list (list Q) * (list (list bool) * (nat * list nat))))) :=
+  combine (d_indices d) (combine (d_times d) (combine (d_values d) (combine (d_mask d) (combine (d_nvis d) (d_nobs_ind_ft d))))).
+
+(** the same table with its rows replaced *)
+Definition with_rows (t : table) (rows : list row) : table :=
+  {| t_layout := t_layout t; t_idkind := t_idkind t; t_time_numeric := t_time_numeric t; t_cols_numeric := t_cols_numeric t;
+     t_nfeat := t_nfeat t; t_ncov := t_ncov t; t_drop_full_nan := t_drop_full_nan t; t_nb_events := t_nb_events t;
+     t_cov_named := t_cov_named t; t_rows := rows |}.
+
 Definition ingest (P : params) (t : table) : result dataset :=
   inds <- ingest_data P t ;;
   Ok (construct P (t_layout t) (t_nfeat t) inds).
